@@ -125,6 +125,8 @@ def blocks(tier, seed):
         out.append({"part": "tracking", "cfg": cfg, "phase": 0.0})
     out.append({"part": "tracking-symgrid"})
     out.append({"part": "refine-direct"})
+    for dim in (2, 3):
+        out.append({"part": "tracking-mixed-classes", "dim": dim})
     out.append({"part": "trackers"})
     out.append({"part": "storage-reuse"})
     out.append({"part": "bad-input"})
@@ -191,6 +193,15 @@ def cases(block):
                 for n in (2, 3):
                     for hist in itertools.product(F, repeat=n):
                         yield {"part": p, "grid": g, "method": method, "max_dist": md, "hist": [list(f) for f in hist]}
+    elif p == "tracking-mixed-classes":
+        # one slowly moving droplet that consecutive frames represent by DIFFERENT droplet classes (frames analysed with different options)
+        ncls = 5 if block["dim"] == 2 else 4
+        F = [None] + list(range(ncls))
+        for method, md in (("overlap", None), ("distance", None), ("distance", 1.5)):
+            for periodic in (False, True):
+                for n in (2, 3):
+                    for hist in itertools.product(F, repeat=n):
+                        yield {"part": p, "dim": block["dim"], "method": method, "max_dist": md, "periodic": periodic, "hist": list(hist)}
     elif p == "refine-direct":
         # refining catalogue droplets directly (incl. perturbed classes WITHOUT modes, zero radius / width) against catalogue fields
         for g in cat_grids():
@@ -342,8 +353,41 @@ def run_case(case, ctx):
             ctx.check("C09.no-raise", False, {"exc": repr(e)[:300]}, tags)
             return
         ctx.check("C09.no-raise", True)
-        ctx.count("tracking-with-symmetric-grid")
+        ctx.count("tracking-with-symmetric-grid", "tracking-one-droplet-through-different-classes")
         ctx.check("C09.finite", sum(len(t) for t in tracks) == sum(len(f) for f in case["hist"]) and all(np.all(np.isfinite(np.asarray(d.position))) and np.isfinite(d.radius) for t in tracks for d in t.droplets), None, tags)
+        return
+    if p == "tracking-mixed-classes":
+        import pde
+        from droplets import DiffuseDroplet, DropletTrackList, Emulsion, EmulsionTimeCourse, SphericalDroplet
+        from droplets.droplets import PerturbedDroplet2D, PerturbedDroplet3D, PerturbedDroplet3DAxisSym
+
+        dim = case["dim"]
+        ems = []
+        for i, c in enumerate(case["hist"]):
+            pos = np.array([4.0 + 0.3 * i] + [4.0] * (dim - 1)) if dim == 2 else np.array([0.0, 0.0, 4.0 + 0.3 * i])
+            if c is None:
+                ems.append(Emulsion([]))
+                continue
+            if dim == 2:
+                d = [lambda: SphericalDroplet(pos, 2.0), lambda: DiffuseDroplet(pos, 2.0, 0.5), lambda: DiffuseDroplet(pos, 2.0), lambda: PerturbedDroplet2D(pos, 2.0, 0.5, [0.1, -0.05]),
+                     lambda: PerturbedDroplet2D(pos, 2.0, None, [0.0, 0.1, 0.0, 0.05])][c]()
+            else:
+                d = [lambda: SphericalDroplet(pos, 2.0), lambda: DiffuseDroplet(pos, 2.0, 0.5), lambda: PerturbedDroplet3D(pos, 2.0, 0.5, [0.0, 0.1, 0.05]), lambda: PerturbedDroplet3DAxisSym(pos, 2.0, 0.5, [0.1, 0.05])][c]()
+            ems.append(Emulsion([d, SphericalDroplet(pos + 5.0 * np.eye(dim)[0] * (1 if dim == 2 else 0) + (np.array([0, 0, 5.0]) if dim == 3 else 0), 1.0)]))
+        etc = EmulsionTimeCourse(ems, times=[0.5 * i for i in range(len(ems))])
+        grid = pde.UnitGrid([12] * dim, periodic=True) if case["periodic"] else None
+        tags = {"part": p, "method": case["method"], "dim": dim, "periodic": case["periodic"]}
+        kw = {} if case["max_dist"] is None else {"max_dist": case["max_dist"]}
+        try:
+            tracks = DropletTrackList.from_emulsion_time_course(etc, method=case["method"], grid=grid, **kw)
+            ctx.op(len(ems))
+        except Exception as e:  # noqa
+            ctx.check("C09.no-raise", False, {"exc": repr(e)[:300]}, tags)
+            return
+        ctx.check("C09.no-raise", True)
+        if len({c for c in case["hist"] if c is not None}) > 1:
+            ctx.count("tracking-one-droplet-through-different-classes")
+        ctx.check("C09.finite", sum(len(t) for t in tracks) == sum(len(e) for e in ems) and all(np.all(np.isfinite(np.asarray(d.position))) and np.isfinite(d.radius) for t in tracks for d in t.droplets), None, tags)
         return
     if p == "refine-direct":
         from pde import ScalarField
@@ -540,4 +584,4 @@ def run_trackers(case, ctx):
 
 
 def expected_positive(tier):
-    return ["C09.no-raise", "C09.finite", "C09.documented-error", "non-zero-field", "refined-results", "time-course-with-empty-frame", "requests-with-worker-processes", "tracking-with-symmetric-grid", "directly-refined-candidates", "perturbed-candidates-without-modes", "storage-analysed-again-after-extending-the-time-course"]
+    return ["C09.no-raise", "C09.finite", "C09.documented-error", "non-zero-field", "refined-results", "time-course-with-empty-frame", "requests-with-worker-processes", "tracking-with-symmetric-grid", "tracking-one-droplet-through-different-classes", "directly-refined-candidates", "perturbed-candidates-without-modes", "storage-analysed-again-after-extending-the-time-course"]
